@@ -530,3 +530,42 @@ package eval
 //@   props C20
 //@   log Callable.Call sync.WaitGroup.Done
 //@   exit [function-exactly-once] ncalls == 2 && callis(0, "Callable.Call") && callis(1, "sync.WaitGroup.Done")
+
+// ---------------------------------------------------------------------------
+// C19 (sequential part): cancellation checks. Once the interrupt has been
+// delivered (Frame.Canceled reports true) no further pipeline starts, and a chunk
+// that ran to its end still reports the interrupt.
+
+//@ func Frame.Canceled
+//@   trusted
+//@   pure
+
+// pipelineOp.exec: cancellation is consulted before anything else; when the
+// evaluation is already canceled nothing of the pipeline runs (no fork, no pipe,
+// no form, no goroutine) and an exception is returned.
+//@ func pipelineOp.exec
+//@   props C19
+//@   nosafety
+//@   log Frame.Canceled Frame.Fork formOp.exec go os.Pipe sync.WaitGroup.Add
+//@   exit [cancellation-checked-first] callis(0, "Frame.Canceled")
+//@   exit [canceled-pipeline-runs-nothing] callres(0).(bool) ==> ncalls == 1 && !(result === nil)
+
+// chunkOp.exec: pipelines run in order until the first exception, which is
+// returned; if all succeed the interrupt is checked once more and reported.
+//@ func chunkOp.exec
+//@   props C19
+//@   nosafety
+//@   log pipelineOp.exec Frame.Canceled
+//@   loop 1 invariant ncalls == range_pos && ncallsof("Frame.Canceled") == 0
+//@   loop 1 invariant forall k int :: 0 <= k && k < ncalls ==> callis(k, "pipelineOp.exec") && callres(k) === nil
+//@   exit [first-exception-ends-the-chunk] forall k int :: 0 <= k && k < ncalls && callis(k, "pipelineOp.exec") && !(callres(k) === nil) ==> k == ncalls - 1 && result === callres(k)
+//@   exit [interrupt-checked-after-the-last-pipeline] result === nil ==> ncalls == old(len(op.pipelines)) + 1 && callis(ncalls - 1, "Frame.Canceled") && !callres(ncalls - 1).(bool)
+//@   exit [pending-interrupt-reported] ncallsof("Frame.Canceled") == 1 && callres(ncalls - 1).(bool) ==> !(result === nil)
+
+// sleep waits only in a select that is also woken by cancellation, and rejects
+// negative durations before waiting.
+//@ func sleep
+//@   props C19
+//@   nosafety
+//@   interruptible
+//@   exit [negative-duration-rejected] d < 0 ==> !(result === nil)
